@@ -8,7 +8,7 @@ from libertem_blobfinder.base import correlation as bc
 PROP = "C13"
 LEAN_MODULE = "BlobfinderModel.Properties.C13"
 GEN_FILES = ["Crop"]
-FRAGMENTS = ["crop_cell", "sl_coord_y", "sl_coord_x", "sl_bounds"]
+FRAGMENTS = ["crop_cell", "sl_bounds"]
 DRIVER = "drvcorr"
 RULE = ("correspondence: exhaustive enumeration of frame shapes x crop sizes x peak positions "
         "(ranges in coverage.exhaustive_range) through both real back-ends and the Lean model, "
